@@ -110,7 +110,9 @@ def _calc_crowding_distance(population: list[FrozenTrial]) -> defaultdict[int, f
 
 def _crowding_distance_sort(population: list[FrozenTrial]) -> None:
     manhattan_distances = _calc_crowding_distance(population)
-    population.sort(key=lambda x: manhattan_distances[x.number])
+    # Break ties (e.g., the boundary individuals, whose distance is inf) by trial number so that
+    # the result does not depend on the directions of the objectives.
+    population.sort(key=lambda x: (manhattan_distances[x.number], -x.number))
     population.reverse()
 
 
